@@ -272,6 +272,7 @@ class Engine:
         self.havoc_hook = havoc_hook       # fn(engine, state, frame, header_bb) -> None (assume invariants etc.)
         self.on_header = on_header
         self.functions_touched = set()
+        self.unmodelled = set()
         self.loop_headers_cache = {}
         self.unsupported = []
 
@@ -1089,7 +1090,33 @@ class Engine:
                 raise Unsupported("call depth")
             st.frames.append(nf)
             return "continue"
+        # 3. unmodelled library function without `&mut` arguments returning a scalar: over-approximate by an arbitrary
+        #    result (sound for "must be unsat" obligations; recorded as an assumption of the run)
+        hv = self.havoc_call(st, fr, dest, callee, args)
+        if hv is not None:
+            return self.finish_call(st, fr, hv, dest_addr, ret_bb)
         raise Unsupported("call to %s (no stub, not inlinable)" % callee)
+
+    def havoc_call(self, st, fr, dest, callee, args):
+        if dest is None or dest[0] != "local":
+            return None
+        if not re.match(r"^(<?(core|std|alloc)::|<(str|\[u8\]|char|u8|u32|u64|usize|&)|(core::)?(str|slice|char)::)", callee) and "::<impl " not in callee:
+            return None
+        ty = (fr.fn.local_ty.get(dest[1]) or "").strip()
+        for a in args:
+            if a[0] in ("copy", "move") and a[1][0] == "local":
+                aty = (fr.fn.local_ty.get(a[1][1]) or "").strip()
+                if aty.startswith("&mut") or aty.startswith("*mut") or "&mut " in aty:
+                    return None
+        if ty == "bool":
+            v = self.sym_bool("unmodelled")
+        elif ty in INT_TY or ty == "char":
+            v = self.sym_int(ty, "unmodelled")
+        else:
+            return None
+        st.events.append(("unmodelled_call", callee))
+        self.unmodelled.add(callee)
+        return v
 
     def finish_call(self, st, fr, out, dest_addr, ret_bb):
         """out: value | ('diverge', kind, info) | ('fork', [(cond, value, side_effect_fn)])"""
